@@ -1,6 +1,8 @@
 package checks
 
 import (
+	"errors"
+	"bufio"
 	"bytes"
 	"context"
 	"fmt"
@@ -198,6 +200,45 @@ func rawHTTPx(method, base, target string, headers [][2]string, body []byte, chu
 	defer resp.Body.Close()
 	b, _ := io.ReadAll(io.LimitReader(resp.Body, 16<<20))
 	return &rawResp{Status: resp.StatusCode, Header: resp.Header, Body: b}, nil
+}
+
+// rawHTTPShort writes the request by hand over TCP: it declares Content-Length: len(body)+extra, sends only
+// body and then closes its sending side (a peer that dies or a proxy that cuts the upload). The server's
+// answer, if any, is returned; (nil, nil) means the server closed the connection without answering.
+func rawHTTPShort(method, base, target string, headers [][2]string, body []byte, extra int) (*rawResp, error) {
+	u, err := url.Parse(base)
+	if err != nil {
+		return nil, err
+	}
+	conn, err := net.DialTimeout("tcp", u.Host, 10*time.Second)
+	if err != nil {
+		return nil, err
+	}
+	defer conn.Close()
+	_ = conn.SetDeadline(time.Now().Add(30 * time.Second))
+	var b bytes.Buffer
+	fmt.Fprintf(&b, "%s %s HTTP/1.1\r\nHost: %s\r\nConnection: close\r\nContent-Length: %d\r\n", method, target, u.Host, len(body)+extra)
+	for _, kv := range headers {
+		fmt.Fprintf(&b, "%s: %s\r\n", kv[0], kv[1])
+	}
+	b.WriteString("\r\n")
+	b.Write(body)
+	if _, err := conn.Write(b.Bytes()); err != nil {
+		return nil, err
+	}
+	if tc, ok := conn.(*net.TCPConn); ok {
+		_ = tc.CloseWrite()
+	}
+	resp, err := http.ReadResponse(bufio.NewReader(conn), nil)
+	if err != nil {
+		if errors.Is(err, io.EOF) || errors.Is(err, io.ErrUnexpectedEOF) || strings.Contains(err.Error(), "reset") {
+			return nil, nil
+		}
+		return nil, err
+	}
+	defer resp.Body.Close()
+	rb, _ := io.ReadAll(io.LimitReader(resp.Body, 16<<20))
+	return &rawResp{Status: resp.StatusCode, Header: resp.Header, Body: rb}, nil
 }
 
 func pathUnescape(p string) (string, error) { return url.PathUnescape(p) }
